@@ -219,7 +219,7 @@ def run_listen(cfg, via, cfg_mode, ch, public_port=80):
                     if rec.fires and not viol:
                         viol.append(('listen-fired-before-descriptor-upload', cfg['kind'], '%r' % (rec.summary(),)))
                     # step 4: the descriptor uploads
-                    c_up = ch.choose(4, 'uploads')          # 0 one succeeds, 1 every upload fails, 2 caller cancels the wait, 3 another service's upload succeeds first
+                    c_up = ch.choose(5, 'uploads')          # 0 one succeeds, 1 every upload fails, 2 caller cancels the wait, 3 another service's upload succeeds first, 4 connection lost during the wait
                     hd = '$' + 'CD' * 20
                     if c_up == 3:
                         sim.event('HS_DESC UPLOAD %s UNKNOWN %s descX' % (other, hd2))
@@ -235,6 +235,9 @@ def run_listen(cfg, via, cfg_mode, ch, public_port=80):
                     elif c_up == 2:
                         injected = 'cancelled'
                         rec.d.cancel()
+                    elif c_up == 4:
+                        injected = 'lost-during-wait'
+                        impl.wire.lose(failure.Failure(error.ConnectionLost()))
                     else:
                         injected = 'uploads-failed'
                         sim.event('HS_DESC FAILED %s UNKNOWN %s desc1 REASON=UPLOAD_REJECTED' % (the_sid, hd))
@@ -287,6 +290,14 @@ def run_listen(cfg, via, cfg_mode, ch, public_port=80):
                         sd = port_obj.stopListening()
                         if p.open:
                             viol.append(('stopListening-did-not-close', feat, 'the local listener is still open'))
+                        else:
+                            # IListeningPort: the port can be started and stopped again
+                            port_obj.startListening()
+                            if not p.open:
+                                viol.append(('startListening-did-not-reopen', feat, 'after stopListening(), startListening() left the local listener closed'))
+                            port_obj.stopListening()
+                            if p.open:
+                                viol.append(('stopListening-did-not-close', feat + '/after-restart', 'stop, start, stop: the local listener is still open'))
             else:
                 if rec.kind != 'err':
                     viol.append(('listen-succeeded-despite-fault', feat + '/%s' % (injected if isinstance(injected, str) else type(injected).__name__),
@@ -322,6 +333,57 @@ def run_listen(cfg, via, cfg_mode, ch, public_port=80):
                     except Exception:
                         pass
     return dict(viol=viol, obs=obs, log=log + ['config %r via %s (%s); choices %r' % (cfg, via, cfg_mode, ch.trail)])
+
+
+def run_helper_failure(which):
+    """endpoints made by system_tor() / private_tor(): the configuration comes from a connection (or a launch) that fails -
+    listen() must fail with that error, having bound nothing"""
+    from twisted.internet.interfaces import IStreamClientEndpoint
+    from zope.interface import implementer
+    import txtorcon.controller as _ctl
+    viol = []
+    with World() as w:
+        err = error.ConnectionRefusedError('injected: control port refused')
+
+        @implementer(IStreamClientEndpoint)
+        class Refusing(object):
+            def connect(self, factory):
+                return defer.fail(failure.Failure(err))
+        old_find = _ctl.find_tor_binary
+        old_tmp = tempfile.tempdir
+        tempfile.tempdir = workdir()
+        try:
+            if which == 'system_tor':
+                ep = TCPHiddenServiceEndpoint.system_tor(w.reactor, Refusing(), 80)
+            elif which == 'string:controlPort':
+                ep = TCPHiddenServiceEndpointParser().parseStreamServer(w.reactor, '80', controlPort='9051')
+            else:
+                _ctl.find_tor_binary = lambda *a, **k: None          # no tor to launch
+                ep = TCPHiddenServiceEndpoint.private_tor(w.reactor, 80)
+            fac = Factory()
+            fac.protocol = Protocol
+            rec = DRec(ep.listen(fac))
+            if which == 'string:controlPort':
+                for c in list(w.reactor.connectors):
+                    c.fail(err)
+        except Exception as e:
+            _ctl.find_tor_binary = old_find
+            tempfile.tempdir = old_tmp
+            return dict(viol=[('helper-raised', which, repr(e))], obs=('raised',), log=[which])
+        finally:
+            _ctl.find_tor_binary = old_find
+            tempfile.tempdir = old_tmp
+        if len(rec.fires) != 1:
+            viol.append(('listen-fired-%d-times' % len(rec.fires), '%s/fault-config-unavailable' % which,
+                         'the control connection / launch behind %s failed; listen() has fired %d times' % (which, len(rec.fires))))
+        elif rec.kind != 'err':
+            viol.append(('listen-succeeded-despite-fault', which, '%r' % (rec.summary(),)))
+        elif which != 'private_tor' and rec.value.value is not err and 'injected' not in str(rec.value.value):
+            viol.append(('failure-not-the-injected-error', which, 'listen() failed with %r' % (rec.value.value,)))
+        if w.reactor.open_ports():
+            viol.append(('listener-leaked', which, '%r' % (w.reactor.open_ports(),)))
+        obs = (which, rec.summary()[:2])
+    return dict(viol=viol, obs=obs, log=[which])
 
 
 def _client_ep(reactor):
@@ -404,10 +466,19 @@ def tasks(tier, seed):
             for mode in ('object', 'deferred'):
                 out.append(('listen', i, via, mode))
     out.append(('invalid',))
+    out.append(('helpers',))
     return out
 
 
 def run_task(param, acc):
+    if param[0] == 'helpers':
+        for which in ('system_tor', 'string:controlPort', 'private_tor'):
+            r = run_helper_failure(which)
+            acc.execution(key=('helpers', which), outcome='helpers/' + ('/'.join(sorted(set(v[0] for v in r['viol']))) or 'failed-cleanly'), nontrivial=True, steps=2)
+            acc.state(h64(r['obs']))
+            for clause, feat, detail in r['viol']:
+                acc.violation('%s/%s' % (clause, feat), detail, dict(fam='helpers', which=which), cost=2)
+        return
     if param[0] == 'invalid':
         for i in range(len(invalid_cases())):
             r = run_invalid(i)
@@ -440,6 +511,9 @@ def run_task(param, acc):
 
 
 def replay(p):
+    if p.get('fam') == 'helpers':
+        r = run_helper_failure(p['which'])
+        return dict(violations=[dict(signature='%s/%s' % (c, f), what=d) for c, f, d in r['viol']], log=r['log'])
     if p['fam'] == 'invalid':
         r = run_invalid(p['i'])
     else:
